@@ -126,7 +126,7 @@ Definition m_unpack (S : mspec) (m0 : mstate) (src : bytes) : mstate * ures Z :=
       let m2 := with_present (with_mti m1 mti') (zadd 0 (m_present m1)) in
       match bm_unpack (ms_bm S) (m_bm m2) (zdrop read src) with
       | (bm, Ok r2) =>
-          let m3 := with_bm m2 bm in
+          let m3 := with_present (with_bm m2 bm) (zadd 1 (m_present m2)) in
           match unpack_fields (Z.to_nat (zlen bm * 8 - 1)) S bm 2 src (read + r2) (m_present m3) (m_fields m3) with
           | ((p, fl), r) => (with_fields (with_present m3 p) fl, r)
           end
